@@ -225,6 +225,29 @@ func main() {
 				c = genC19(r, gidx, *tier)
 			}
 			runC19(e, idx, c)
+		case "C18":
+			var c *PrintCase
+			if desc != "" {
+				c = &PrintCase{}
+				mustJSON(desc, c)
+				c.Opt.norm()
+			} else {
+				c = genC18(r, gidx, *tier)
+			}
+			runC18(e, idx, c)
+		case "C13gen", "C13":
+			var c *FmtCase
+			if desc != "" {
+				c = &FmtCase{}
+				mustJSON(desc, c)
+			} else {
+				c = genC13(r, gidx, *tier)
+			}
+			if *prop == "C13gen" {
+				runC13gen(e, idx, c)
+			} else {
+				runC13(e, idx, c)
+			}
 		default:
 			fmt.Fprintln(os.Stderr, "unknown property", *prop)
 			os.Exit(2)
